@@ -132,6 +132,8 @@ def Stmt.render (g : Globals) : Stmt → M String
     if g.dialect == .sqlite then pure (sprintf (g.tpl "DropIndexStm") [g.esc n])
     else pure (sprintf (g.tpl "DropIndexStm") [g.esc n, g.esc t])
   | .commentOn t c text => pure (sprintf (g.tpl "ColumnComment") [t, c, text])
+  -- read-only statements: sqlize has no template for them (the emitters never produce one)
+  | .alterType .. | .setDefault .. | .dropNotNull .. => .error "UNMODELLED: no template for ALTER COLUMN"
 
 /-- layout of `Migration.MigrationUp/Down`: lines of a table joined by "\n", tables by "\n\n" -/
 def renderMigration (g : Globals) (tables : List (List Stmt)) : M String := do
